@@ -168,7 +168,7 @@ def handle (st : St) : List Str → St × Str
         else
           let r := if what = str "type" then U.type w.bt st.ls.u n
             else st.ls.u.decl (if what = str "func" then .func else if what = str "var" then .var else .const) n
-          ({ st with ls := { st.ls with u := r.1 } }, showObj r.1 r.2)
+          ({ st with ls := { st.ls with u := r.1 } }, str "ok")
       | _ => (st, str "bad-op")
     else if op = str "inputs" then (st, hexList (st.ls.requested.mergeSort Str.le))
     else if op = str "dump" then (st, hex (dump st.ls.u))
